@@ -200,6 +200,7 @@ def run(facts, rep, tier):
     single_policy(F, rep)
     # ---- T9 compound assignment cannot bypass the policy -----------------------------------------------------
     compound_no_bypass(F, rep)
+    exponent_classifiers(F, rep)
     # ---- T10 runtime trait impl outputs -----------------------------------------------------------------------
     runtime_outputs(F, rep)
     # ---- T11 types_compatible numeric cells -------------------------------------------------------------------
@@ -548,7 +549,7 @@ def compound_no_bypass(F, rep):
             if s["s"] == "assign" and s["rv"]["r"] == "agg" and s["rv"].get("ak") == "tuple" and not s["d"]["p"]:
                 if any(op_place(o) is not None and op_place(o)["l"] in cls_dests for o in s["rv"]["ops"]):
                     tuples |= derived_locals(f, s["d"]["l"])
-    none_targets = set()
+    none_edges = set()
     n_sw = 0
     for s in discr_switches(f):
         if s["block"] not in arm or not s["adt"].endswith("option::Option"):
@@ -557,16 +558,24 @@ def compound_no_bypass(F, rep):
             continue
         n_sw += 1
         if "None" in s["explicit"]:
-            none_targets.add(s["explicit"]["None"])
+            none_edges.add((s["block"], s["explicit"]["None"]))
         if "Some" in s["explicit"] and s["otherwise_live"]:
-            none_targets.add(s["otherwise"])
+            none_edges.add((s["block"], s["otherwise"]))
     rep.floor("NOBYPASS", "matches on the numeric classification in the compound arm", n_sw, 2)
+    none_targets = {b for _, b in none_edges}
     last_cls = max(cls)
-    start_blocks = f.succs()[last_cls]
-    avoid = set(pol) | none_targets
-    reach = set()
-    for sb in start_blocks:
-        reach |= f.reachable(sb, avoid=avoid)
+    # reachability with the policy call blocked and the "an operand is not numeric" EDGES cut (edges, not blocks: the
+    # fallback block may also be entered from a guard such as `if lhs != rhs`, and that entry is a bypass)
+    reach, todo = set(), list(f.succs()[last_cls])
+    polset = set(pol)
+    while todo:
+        b = todo.pop()
+        if b in reach or b in polset:
+            continue
+        reach.add(b)
+        for s2 in f.succs()[b]:
+            if (b, s2) not in none_edges:
+                todo.append(s2)
     escaped = sorted(b for b in reach if b not in arm)
     ok2 = not escaped and bool(pol)
     rep.oblige("NOBYPASS", "compound:no-path-around-policy", ok2,
@@ -578,6 +587,68 @@ def compound_no_bypass(F, rep):
                         "compound-assignment arm without calling result_numeric_type: the statement can be accepted "
                         "without consulting the numeric policy (`k: int; k /= 2` would type-check although "
                         "`k = k / 2` is rejected)", file=f.file, line=sw["ln"], fn=f.path))
+
+
+EXP_CLASSIFIERS = {
+    # the only functions that may turn an exponent into a PowExponentKind, each from the SYNTACTIC shape of the
+    # exponent expression (int literal, negated int literal, anything else); their accepted shapes are compared by the
+    # sibling tables above
+    "incan::numeric_adapters::pow_exponent_kind_from_ast": "shared adapter, AST exponent",
+    "incan::numeric_adapters::pow_exponent_kind_from_ir": "shared adapter, IR exponent",
+    "incan::backend::ir::lower::expr::<impl incan::backend::ir::lower::AstLowering>::pow_exponent_kind":
+        "lowering's copy over the AST exponent (same literal shapes; sibling-checked)",
+}
+EXP_PHASES = ("check_binary", "eval_const_expr", "determine_binop_plan", "lower_expr")
+
+
+def exponent_classifiers(F, rep):
+    """EXPKIND — every phase classifies the `**` exponent through one of the syntactic classifiers; nobody else calls
+    PowExponentKind::from_literal_info or builds a PowExponentKind by hand (a phase that classifies the exponent by a
+    rule of its own — e.g. from a folded constant value — types `a ** N` differently from the other phases)."""
+    target = "incan_core::PowExponentKind::from_literal_info"
+    if not rep.anchor("EXPKIND", target, F.fns.get(target)):
+        return
+    n = 0
+    for p, f in sorted(F.fns.items()):
+        if f.crate not in ("incan", "incan_core"):
+            continue
+        for bi, t in f.calls():
+            if (callee_name(t) or "") != target:
+                continue
+            n += 1
+            ok = p in EXP_CLASSIFIERS
+            inst = "%s|from_literal_info" % p.split("::")[-1]
+            rep.oblige("EXPKIND", inst, ok, sample={"rule": "EXPKIND", "caller": p, "line": t.get("ln"), "allowed": ok})
+            if not ok:
+                rep.add(Finding("EXPKIND", "EXPKIND|%s" % inst,
+                                "%s classifies a `**` exponent by calling PowExponentKind::from_literal_info itself "
+                                "instead of one of the shared syntactic classifiers: this phase can give `a ** e` a "
+                                "different exponent kind (and result type) than the other phases" % p,
+                                file=f.file, line=t.get("ln"), fn=p))
+        if p != target:
+            for b in f.blocks:
+                for st in b["st"]:
+                    if st["s"] == "assign" and st["rv"]["r"] == "agg" and \
+                            (st["rv"].get("adt") or "").endswith("PowExponentKind") and p not in EXP_CLASSIFIERS:
+                        inst = "%s|builds:%s" % (p.split("::")[-1], st["rv"].get("variant"))
+                        rep.oblige("EXPKIND", inst, False)
+                        rep.add(Finding("EXPKIND", "EXPKIND|%s" % inst,
+                                        "%s constructs PowExponentKind::%s directly, outside the shared classifiers"
+                                        % (p, st["rv"].get("variant")), file=f.file, line=st.get("ln"), fn=p))
+    rep.floor("EXPKIND", "callers of PowExponentKind::from_literal_info", n, 3)
+    for suf in EXP_PHASES:
+        f = F.one_fn(suf)
+        if not rep.anchor("EXPKIND", suf, f):
+            continue
+        own = body_and_closures(F, f.path)
+        used = sorted({callee_name(t) for q in own for _, t in F.fns[q].calls() if (callee_name(t) or "") in EXP_CLASSIFIERS})
+        ok = bool(used)
+        rep.oblige("EXPKIND", "%s:uses-classifier" % suf, ok,
+                   sample={"rule": "EXPKIND", "phase": f.path, "classifier": used})
+        if not ok:
+            rep.add(Finding("EXPKIND", "EXPKIND|%s|no-classifier" % suf,
+                            "%s no longer classifies the `**` exponent through a shared classifier" % suf,
+                            file=f.file, line=f.line, fn=f.path))
 
 
 def runtime_outputs(F, rep):
